@@ -81,7 +81,7 @@ class GateServer:
         if os.path.exists(self.path): os.remove(self.path)
 
 class Daemon:
-    def __init__(self, rb, home, env, autoreply=b"K"):
+    def __init__(self, rb, home, env, autoreply=b"K", send_env=None, announce=(4, 4)):
         self.rb, self.home, self.env = rb, home, env
         self.autoreply = autoreply
         mk = os.pipe
@@ -91,9 +91,9 @@ class Daemon:
         c_cmd_r, c_cmd_w = mk(); c_res_r, c_res_w = mk()
         cenv = {k: v for k, v in env.items() if k not in ("SYSSHIM_GATE",)}
         self.clean_pid = _spawn([os.path.join(home, "bin", "qmail-clean")], {0: c_cmd_r, 1: c_res_w, 2: log_w}, cenv, home)
-        os.write(l_res_w, b"\x04"); os.write(r_res_w, b"\x04")          # concurrency the spawners announce
+        os.write(l_res_w, bytes([announce[0]])); os.write(r_res_w, bytes([announce[1]]))          # concurrency the spawners announce
         self.send_pid = _spawn([os.path.join(home, "bin", "qmail-send")],
-                               {0: log_w, 1: l_cmd_w, 2: l_res_r, 3: r_cmd_w, 4: r_res_r, 5: c_cmd_w, 6: c_res_r}, env, home)
+                               {0: log_w, 1: l_cmd_w, 2: l_res_r, 3: r_cmd_w, 4: r_res_r, 5: c_cmd_w, 6: c_res_r}, send_env or env, home)
         for fd in (log_w, l_cmd_w, l_res_r, r_cmd_w, r_res_r, c_cmd_r, c_cmd_w, c_res_r, c_res_w): os.close(fd)
         self.chan = {"l": (l_cmd_r, l_res_w, b""), "r": (r_cmd_r, r_res_w, b"")}
         self.bufs = {"l": b"", "r": b""}
@@ -122,16 +122,31 @@ class Daemon:
                     parts = b[1:].split(b"\0", 3)
                     if len(parts) < 4: break
                     delnum = b[0:1]; self.bufs[k] = parts[3]
-                    self.deliveries.append((k, parts[0], parts[1], parts[2]))
+                    dl = dict(chan=k, slot=delnum, fn=parts[0], sender=parts[1], rcpt=parts[2], answered=False)
+                    self.deliveries.append(dl)
                     if self.autoreply is not None:
-                        os.write(self.chan[k][1], delnum + self.autoreply + b"ok\0")
+                        self.reply(dl, self.autoreply + b"ok")
             if time.time() >= end: break
+    def reply(self, dl, text):
+        """send the report for a delivery command (text starts with K, Z, D or anything else)"""
+        dl["answered"] = True
+        os.write(self.chan[dl["chan"]][1], dl["slot"] + text + b"\0")
+    def pending(self):
+        return [dl for dl in self.deliveries if not dl["answered"]]
     def loglines(self):
         return self.log.decode("latin1").split("\n")
     def alive(self):
         try:
             p, st = os.waitpid(self.send_pid, os.WNOHANG); return p == 0
         except ChildProcessError: return False
+    def term(self, wait=3.0):
+        """SIGTERM: clean stop (waits for deliveries in flight); returns True if it exited"""
+        os.kill(self.send_pid, signal.SIGTERM)
+        end = time.time() + wait
+        while time.time() < end:
+            self.pump(0.05)
+            if not self.alive(): return True
+        return False
     def stop(self):
         for pid in (self.send_pid, self.clean_pid):
             try: os.kill(pid, signal.SIGKILL)
